@@ -171,6 +171,8 @@ def _run(case, ctx, d):
         cut = int(spec.spike_samples[len(spec.spike_samples) * 2 // 3])
         if cut > 20:
             spec.raw = spec.raw[:cut]
+    if opts['names'] == 'alf' and case['seed'][-1] % 3 == 1:
+        spec.alf_store_samples = False            # seconds only: the samples (hence every stored window) come from rounding them
     if case['seed'][-1] % 2 == 0:
         spec.notes['n_closest_channels'] = 2 + case['seed'][-1] % 3 % 2          # stores whose channel rows are full (no -1 padding)
     if case['seed'][-1] % 3 == 2:
@@ -356,6 +358,21 @@ def _compare(ctx, desc, f0, spec, ref, m, A, history):
                     # the same through the model's accessor: the stored channels of one spike in another order, plus a stranger
                     i0 = len(sid) // 2
                     own = [c for c in sch[i0].tolist() if c != -1]
+                    # every stored spike in ONE request (templates that share a peak channel rank their other channels differently)
+                    allch = list(range(spec.n_channels))[::-1]
+                    rw = call(m.get_waveforms, sid, np.array(allch))
+                    if rw.ok and rw.value is not None and np.asarray(rw.value).shape == (len(sid), nsw, len(allch)):
+                        G = np.asarray(rw.value)
+                        for i, s in enumerate(sid.tolist()):
+                            for j, c in enumerate(allch):
+                                if c in sch[i].tolist():
+                                    e = window(A, spec.spike_samples[s], nsw, [c])[:, 0].astype(np.float64) * ref['store']['factor']
+                                    if not np.allclose(G[i, :, j], e, rtol=1e-6, atol=1e-6):
+                                        V('store_waveforms', 'get_waveforms(all stored spikes, all channels): spike %d channel %d is not its stored window' % (s, c))
+                                        break
+                            else:
+                                continue
+                            break
                     for req in (own[::-1], own[1:] + own[:1], own[::-1] + [c for c in range(spec.n_channels) if c not in own][:1]):
                         if not req:
                             continue
